@@ -226,7 +226,15 @@ def run(ctx):
                 case = [p for k, p in g if isinstance(p, str) and p.startswith("case:")]
                 src = "io_pressure" if "case:IO" in case else "mem_pressure" if "case:MEMORY" in case else None
                 norm = re.sub(r"pressure@\d+", "pressure", rhs).replace("->->", "->")
-                ctx.check(re.match(r"^\(\(pressure->sec_10 / 2\) \+ \(pressure->sec_60 / 2\)\)$", norm) is not None, "metric:kill_by_pressure:mean-of-10s-and-60s", "value-shape", l.loc(w),
+                okm = re.match(r"^\(\(pressure->sec_10 / 2\) \+ \(pressure->sec_60 / 2\)\)$", norm) is not None
+                if not okm:
+                    # the mean may be computed by a one-expression closure / new helper: expand it (the pressure local expands with it)
+                    ex_ = Expander(P, l)(rhs_n).replace("->->", "->")
+                    m_ = re.match(r"^\(?\(\(\*?(.+?)(?:->|\.)sec_10 / 2\) \+ \(\*?(.+?)(?:->|\.)sec_60 / 2\)\)\)?$", ex_)
+                    okm = m_ is not None and m_.group(1) == m_.group(2) and re.search(r"\.(io|mem)_pressure\((nullptr)?\)$", m_.group(1)) is not None
+                    if okm:
+                        rhs = ex_
+                ctx.check(okm, "metric:kill_by_pressure:mean-of-10s-and-60s", "value-shape", l.loc(w),
                           "key = sec_10/2 + sec_60/2", "key = " + rhs)
                 ctx.check(src is not None, "metric:kill_by_pressure:resource-case", "switch_table", l.loc(w), "mean computed under the configured resource's case", "mean assigned outside a resource case")
             if keyvar is not None:
